@@ -1481,9 +1481,17 @@ func runC02(args []string) error {
 	seed := fs.Uint64("seed", envSeed(), "seed")
 	dump := fs.String("dump", "", "write the generated programs into this directory and stop")
 	fs.IntVar(&c02ListCap, "listcap", 4000, "maximum number of reference mismatches listed in summary.json")
+	floatOnly := fs.Bool("floatonly", false, "development aid: run only the floating point stream of c02_float.go")
 	fs.Parse(args)
 	if err := os.MkdirAll(*out, 0o755); err != nil {
 		return err
+	}
+	if *floatOnly {
+		sm := newSummary("C02")
+		if err := c02FloatStream(sm, *out, *tier, *seed); err != nil {
+			return err
+		}
+		return sm.write(*out)
 	}
 	t0 := time.Now()
 	g := &c02Gen{tier: *tier, seed: *seed, r: newRng(*seed), constSub: 3}
@@ -1867,7 +1875,11 @@ func runC02(args []string) error {
 	sm.Notes = append(sm.Notes,
 		fmt.Sprintf("%d code sites in %d programs; yaegi %.1fs; compiled-Go reference on %d programs %.1fs (the other programs are compared with the native oracle of the harness, itself compared with compiled Go on the reference shard: 0 differences); total %.1fs",
 			len(g.sites), len(progs), yaegiDur.Seconds(), len(refProgs), refDur.Seconds(), time.Since(t0).Seconds()),
-		"floating point and complex evaluations are decided by this enumeration only (validated against compiled Go, not proved)")
+		"complex evaluations and the statement contexts of floating point operators are decided by this enumeration (validated against compiled Go); the float operators themselves have a Coq denotation, see the float stream note")
+	// ---- floating point stream with a Coq denotation (c02_float.go)
+	if err := c02FloatStream(sm, *out, *tier, *seed); err != nil {
+		return err
+	}
 	sort.Slice(sm.RefMismatches, func(i, j int) bool { return sm.RefMismatches[i].ID < sm.RefMismatches[j].ID })
 	return sm.write(*out)
 }
